@@ -406,6 +406,18 @@ func runC10(R *vlib.Out) {
 				}
 			}
 		}
+		// long ranges (an implementation that fetches or sends a range in pages has its boundaries beyond 100)
+		for _, hl := range []int{130, 260} {
+			if hl > 130 && *vlib.Tier != "thorough" {
+				continue
+			}
+			long := strings.Repeat("a", hl-1) // the logon message + hl-1 application messages
+			for _, be := range [][2]int{{5, 125}, {1, 0}, {1, hl}, {1, 100}, {1, 101}, {2, 102}, {30, hl}, {100, 101}, {101, 101}, {29, 129}, {1, hl + 1}, {hl - 100, 0}} {
+				if !try(c10Case{Role: role, Pattern: long, Reqs: [][2]int{be}}) {
+					return
+				}
+			}
+		}
 		for _, p := range pats {
 			n := len(p) + 1
 			for b := 0; b <= n+2; b++ {
